@@ -434,8 +434,10 @@ def run_schedule(body: Callable[[Scheduler], Any], script: list[int], *, allow_i
 
 def explore(body: Callable[[Scheduler], Any], *, preemptions: int, env: int = 0, allow_interrupt: bool = False,
             max_executions: int | None = None, stats: ExploreStats | None = None,
-            ki_filter: Callable[[str], bool] | None = None) -> Iterator[ScheduleRun]:
-    """All schedules of ``body`` with at most ``preemptions`` pre-emptions and ``env`` environment deviations."""
+            ki_filter: Callable[[str], bool] | None = None, total: int | None = None,
+            shard: tuple[int, int] | None = None) -> Iterator[ScheduleRun]:
+    """All schedules of ``body`` with at most ``preemptions`` pre-emptions and ``env`` environment deviations
+    (and, if given, at most ``total`` deviations of both kinds together)."""
     if stats is None:
         stats = ExploreStats()
     stack: list[tuple[list[int], list[int]]] = [([], [])]
@@ -456,9 +458,18 @@ def explore(body: Callable[[Scheduler], Any], *, preemptions: int, env: int = 0,
         pending = []
         for i, rec in enumerate(run.trace):
             if i >= len(prefix):
+                if shard is not None and not prefix and i % shard[1] != shard[0]:
+                    # work distribution: the first deviation of this shard sits at a position == k (mod n);
+                    # the union of the n shards is exactly the unsharded exploration (the root run is repeated)
+                    cp, ce = rec.costs[rec.chosen]
+                    used_p += cp
+                    used_e += ce
+                    continue
                 for alt in range(1, len(rec.labels)):
                     cp, ce = rec.costs[alt]
-                    if used_p + cp <= preemptions and used_e + ce <= env:
+                    if used_p + cp <= preemptions and used_e + ce <= env and (
+                        total is None or used_p + cp + used_e + ce <= total
+                    ):
                         pending.append((run.choices[:i] + [alt], run.counts[: i + 1]))
             cp, ce = rec.costs[rec.chosen]
             used_p += cp
